@@ -143,6 +143,9 @@ func Worker(total int, run func(i int) *CaseResult) {
 	}
 	if sp.Only >= 0 {
 		one(sp.Only)
+		// a panic in a goroutine of the code under test may let the main goroutine run on for a moment (deferred
+		// close of the result channel): give the dying process time to die before declaring the case survived
+		time.Sleep(50 * time.Millisecond)
 		flush(sp.Only + 1)
 		emit("D", nil)
 		out.Flush()
@@ -320,27 +323,46 @@ func Parent(total int, opt Options, sink Sink) error {
 					sp.From = flushed
 					continue
 				}
-				// re-run the journalled case alone 3x
-				deaths := 0
-				lastTail := tail
-				for a := 0; a < 3; a++ {
-					d, _, _, _, t := spawn(spec{Shard: 0, Shards: 1, Only: lastB, From: lastB, To: lastB + 1}, true)
-					if !d {
-						deaths++
-						lastTail = t
+				// re-run the journalled case alone 3x; if it survives, the culprit may be the case before it in this
+				// shard (a foreign-goroutine panic can let the worker announce the next case before the process dies)
+				culprit, lastTail := -1, tail
+				cands := []int{lastB}
+				if prev := lastB - opt.Workers; prev >= 0 {
+					skipped := false
+					for _, x := range sp.Skip {
+						skipped = skipped || x == prev
+					}
+					if !skipped {
+						cands = append(cands, prev)
 					}
 				}
-				if deaths < 3 {
-					// not reproducible: run it once more, this time keeping its results
-					spawn(spec{Shard: 0, Shards: 1, Only: lastB, From: lastB, To: lastB + 1}, false)
+				for _, cand := range cands {
+					deaths := 0
+					for a := 0; a < 3; a++ {
+						d, _, _, _, t := spawn(spec{Shard: 0, Shards: 1, Only: cand, From: cand, To: cand + 1}, true)
+						if !d {
+							deaths++
+							lastTail = t
+						}
+					}
+					if deaths == 3 {
+						culprit = cand
+						break
+					}
 				}
 				mu.Lock()
-				if deaths == 3 {
-					sink.Crash(lastB, lastTail)
+				if culprit >= 0 {
+					sink.Crash(culprit, lastTail)
 				} else if sink.Flaky != nil {
 					sink.Flaky(lastB, tail)
 				}
 				mu.Unlock()
+				if culprit < 0 {
+					// not reproducible: run it once more, this time keeping its results
+					spawn(spec{Shard: 0, Shards: 1, Only: lastB, From: lastB, To: lastB + 1}, false)
+					culprit = lastB
+				}
+				lastB = culprit
 				sp.From = flushed
 				sp.Skip = append(sp.Skip, lastB)
 				if len(sp.Skip) > 200 {
